@@ -46,8 +46,8 @@ def r_alphabets(t, tier):
         out.append(("flow", alpha([], flow), "enable, usb_reset, source.ready, new_packet, queue.ready, bad_packet free"))
         out.append(("disp", alpha([], disp), "enable, usb_reset, source.ready, retry_required, keepalive_required, reject_power_state free"))
         if tier != "quick":
-            out.append(("wide", alpha([], flow + ["retry_received", "packet", "retry_required"]),
-                        "enable, usb_reset, source.ready, new_packet, queue.ready, bad_packet, retry_received, packet, retry_required free"))
+            out.append(("wide", alpha([], flow + ["retry_received", "packet"]),
+                        "enable, usb_reset, source.ready, new_packet, queue.ready, bad_packet, retry_received, packet free"))
     elif n == 2:
         out.append(("flow", alpha([], flow), "enable, usb_reset, source.ready, new_packet, queue.ready, bad_packet free"))
     return out
